@@ -479,10 +479,32 @@ fn vs_case(index: usize) -> Case {
     Case { cols: VS_COLS, rows: VS_ROWS, limit: None, ops }
 }
 
+fn c09_printable(c: char) -> bool {
+    let cp = c as u32;
+    (0x20..=0x7f).contains(&cp) || cp >= 0xa0
+}
+
+/// the text of a sweep case when it consists of printable characters only (prefixes "" and "abcd")
+fn vs_text(index: usize) -> Option<String> {
+    let k = index / 0x110000;
+    let c = char::from_u32((index % 0x110000) as u32)?;
+    if (k == 0 || k == 3) && c09_printable(c) {
+        Some(format!("{}{}", VS_PRES[k], c))
+    } else {
+        None
+    }
+}
+
 fn vs_sig(vt: &Vt, c: char) -> String {
     let d = vt.dump();
     let mut s = if (c as u32) >= 0x100 { d.replace(c, "\u{fffd}") } else { d };
-    write!(s, "|{}", vt.lines().len()).unwrap();
+    write!(s, "|{}|", vt.lines().len()).unwrap();
+    let t = vt.text().join("\n");
+    if (c as u32) >= 0x100 {
+        s.push_str(&t.replace(c, "\u{fffd}"));
+    } else {
+        s.push_str(&t);
+    }
     s
 }
 
@@ -633,6 +655,13 @@ fn main() {
                     }
                 }
                 tr.run_case(0, &case, true);
+                if m == "vsweep" {
+                    let strs: Vec<&str> = case.ops.iter().filter_map(|o| if let Op::Str(s) = o { Some(s.as_str()) } else { None }).collect();
+                    let body: String = if strs.last() == Some(&"Z\n") { strs[..strs.len() - 1].concat() } else { strs.concat() };
+                    if !body.is_empty() && body.chars().all(|c| c09_printable(c) || c == '\r' || c == '\n') {
+                        rel::run_text(&mut tr.w, 0, &mut Rng::new(1), Some((case.cols, case.rows, body)));
+                    }
+                }
                 tr.w.flush().unwrap();
             } else {
                 let prof = profile(arg(&args, "--profile").unwrap_or("general"));
@@ -967,6 +996,10 @@ fn main() {
                     if j >= max_cases / SEGS as usize + 300 { dropped += cases.len() - j; break; }
                     tr.run_case(*id, &vs_case(*id), false);
                     ncases += 1;
+                    if let Some(text) = vs_text(*id) {
+                        // C09 on the same input: text() and the unwrapped lines() reproduce it
+                        rel::run_text(&mut tr.w, *id, &mut Rng::new(*id as u64), Some((VS_COLS, VS_ROWS, text)));
+                    }
                 }
             }
             writeln!(tr.w, "VSTAT {} {} {}", total, runs, ncases).unwrap();
